@@ -131,7 +131,67 @@ func verifyInsertRegPrefixFree(c *core.Check) (bool, string) {
 	if pre.Op != syntax.OpLiteral || len(pre.Rune) == 0 || pre.Rune[len(pre.Rune)-1] != '(' {
 		return false, "no literal '(' before the name class"
 	}
-	return true, "pattern " + pat + " has the shape literal'(' [class without ')']* ')'"
+	// the argument only covers a single pass over the text: the loop may do nothing but collect (key, value) pairs for
+	// one strings.NewReplacer; replacing key by key in map order rescans inserted text and is order-dependent
+	if ok, why := replaceIsSinglePass(c); !ok {
+		return false, why
+	}
+	return true, "pattern " + pat + " has the shape literal'(' [class without ')']* ')' and Replace builds one strings.NewReplacer from the collected pairs"
+}
+
+// replaceIsSinglePass checks the shape of insertionPointReplacer.Replace: every range over the marker map only appends its
+// key and value to one slice, and that slice is the variadic argument of strings.NewReplacer.
+func replaceIsSinglePass(c *core.Check) (bool, string) {
+	fd := c.Prog.FuncDecl("generator", "insertionPointReplacer.Replace")
+	if fd == nil {
+		return false, "insertionPointReplacer.Replace not found"
+	}
+	info := c.Prog.Pkg("generator").TypesInfo
+	var collected types.Object
+	okLoop, loops := true, 0
+	ast.Inspect(fd.Body, func(n ast.Node) bool {
+		rs, ok := n.(*ast.RangeStmt)
+		if !ok {
+			return true
+		}
+		if tv, ok := info.Types[rs.X]; !ok || !strings.HasPrefix(tv.Type.Underlying().String(), "map[") {
+			return true
+		}
+		loops++
+		if len(rs.Body.List) != 1 {
+			okLoop = false
+			return true
+		}
+		as, ok := rs.Body.List[0].(*ast.AssignStmt)
+		if !ok || len(as.Lhs) != 1 || len(as.Rhs) != 1 {
+			okLoop = false
+			return true
+		}
+		call, ok := as.Rhs[0].(*ast.CallExpr)
+		lhs, ok2 := as.Lhs[0].(*ast.Ident)
+		if !ok || !ok2 || !rules.IsBuiltin(info, call, "append") || len(call.Args) != 3 || rules.ExprString(call.Args[0]) != lhs.Name ||
+			rules.ExprString(call.Args[1]) != rules.ExprString(rs.Key) || rules.ExprString(call.Args[2]) != rules.ExprString(rs.Value) {
+			okLoop = false
+			return true
+		}
+		collected = info.Uses[lhs]
+		return true
+	})
+	if loops == 0 || !okLoop || collected == nil {
+		return false, "the loop over the marker map does more than collect (marker, replacement) pairs: replacing marker by marker in map order makes the output depend on the iteration order whenever an inserted text contains a marker"
+	}
+	single := false
+	for _, call := range rules.Calls(fd.Body, false) {
+		if fn := rules.Callee(info, call); fn != nil && fn.Pkg() != nil && fn.Pkg().Path() == "strings" && fn.Name() == "NewReplacer" && call.Ellipsis.IsValid() && len(call.Args) == 1 {
+			if id, ok := call.Args[0].(*ast.Ident); ok && info.Uses[id] == collected {
+				single = true
+			}
+		}
+	}
+	if !single {
+		return false, "the collected pairs are not handed to one strings.NewReplacer"
+	}
+	return true, ""
 }
 
 // insertRegPattern folds fmt.Sprintf(plugin.InsertionPointFormat, "<const>") in generator.insertReg's initialiser.
